@@ -879,3 +879,199 @@ func retVals(r *ssa.Return, i int) []ssa.Value {
 	}
 	return reachingVals(r.Results[i])
 }
+
+// ---------- path-sensitive reachability ----------
+
+// condKey canonicalises a branch condition so that two tests of the same SSA
+// operands get the same key (SSA values are immutable within one loop iteration).
+func condKey(v ssa.Value) (key string, negated bool) {
+	for {
+		if u, ok := v.(*ssa.UnOp); ok && u.Op == token.NOT {
+			v = u.X
+			negated = !negated
+			continue
+		}
+		break
+	}
+	opnd := func(x ssa.Value) string {
+		x = stripConv(x)
+		if c, ok := x.(*ssa.Const); ok {
+			if c.Value == nil {
+				return "nil"
+			}
+			return "k:" + c.Value.ExactString()
+		}
+		return x.Name() + "@" + fmt.Sprintf("%p", x)
+	}
+	if b, ok := v.(*ssa.BinOp); ok {
+		switch b.Op {
+		case token.EQL:
+			a, c := opnd(b.X), opnd(b.Y)
+			if a > c {
+				a, c = c, a
+			}
+			return "==|" + a + "|" + c, negated
+		case token.NEQ:
+			a, c := opnd(b.X), opnd(b.Y)
+			if a > c {
+				a, c = c, a
+			}
+			return "==|" + a + "|" + c, !negated
+		case token.LSS:
+			return "<|" + opnd(b.X) + "|" + opnd(b.Y), negated
+		case token.GEQ:
+			return "<|" + opnd(b.X) + "|" + opnd(b.Y), !negated
+		case token.GTR:
+			return "<|" + opnd(b.Y) + "|" + opnd(b.X), negated
+		case token.LEQ:
+			return "<|" + opnd(b.Y) + "|" + opnd(b.X), !negated
+		}
+	}
+	return "v|" + opnd(v), negated
+}
+
+// nilKey is the condKey of "v == nil".
+func nilKey(v ssa.Value) string {
+	v = stripConv(v)
+	a, c := "nil", v.Name()+"@"+fmt.Sprintf("%p", v)
+	if a > c {
+		a, c = c, a
+	}
+	return "==|" + a + "|" + c
+}
+
+// reachPS is reach() with branch-condition consistency: along one path two
+// tests of the same condition take the same outcome (assumptions are dropped on
+// loop back edges). implied maps a condition key+outcome to further facts that
+// hold then (e.g. err == nil ⇒ v != nil for results of one call).
+func reachPS(f *ssa.Function, from ssa.Instruction, to func(ssa.Instruction) bool, cut *cuts, implied map[string]map[string]bool) (ssa.Instruction, []int) {
+	if len(f.Blocks) == 0 {
+		return nil, nil
+	}
+	if cut == nil {
+		cut = newCuts()
+	}
+	type state struct {
+		b     *ssa.BasicBlock
+		idx   int
+		facts map[string]bool
+		path  []int
+	}
+	enc := func(b int, facts map[string]bool) string {
+		ks := make([]string, 0, len(facts))
+		for k, v := range facts {
+			if v {
+				ks = append(ks, k+"=T")
+			} else {
+				ks = append(ks, k+"=F")
+			}
+		}
+		sort.Strings(ks)
+		return fmt.Sprintf("%d|%s", b, strings.Join(ks, ";"))
+	}
+	seen := map[string]bool{}
+	var stack []state
+	if from == nil {
+		stack = append(stack, state{f.Blocks[0], 0, map[string]bool{}, []int{0}})
+	} else {
+		b := from.Block()
+		idx := 0
+		for i, ins := range b.Instrs {
+			if ins == from {
+				idx = i + 1
+			}
+		}
+		stack = append(stack, state{b, idx, map[string]bool{}, []int{b.Index}})
+	}
+	budget := 200000
+	for len(stack) > 0 && budget > 0 {
+		budget--
+		st := stack[len(stack)-1]
+		stack = stack[:len(stack)-1]
+		blocked := false
+		for i := st.idx; i < len(st.b.Instrs); i++ {
+			ins := st.b.Instrs[i]
+			if to(ins) {
+				return ins, st.path
+			}
+			if cut.instrs[ins] {
+				blocked = true
+				break
+			}
+		}
+		if blocked {
+			continue
+		}
+		var key string
+		var neg, isIf bool
+		if iff, ok := st.b.Instrs[len(st.b.Instrs)-1].(*ssa.If); ok {
+			key, neg = condKey(iff.Cond)
+			isIf = true
+		}
+		for j, s := range st.b.Succs {
+			if cut.edges[edge{st.b.Index, j}] {
+				continue
+			}
+			facts := st.facts
+			if isIf {
+				outcome := (j == 0) != neg // truth of the canonical condition on this edge
+				if have, ok := st.facts[key]; ok && have != outcome {
+					continue // contradicts an earlier test on this path
+				}
+				facts = make(map[string]bool, len(st.facts)+2)
+				for k, v := range st.facts {
+					facts[k] = v
+				}
+				facts[key] = outcome
+				tag := key + "=F"
+				if outcome {
+					tag = key + "=T"
+				}
+				for k, v := range implied[tag] {
+					if have, ok := facts[k]; ok && have != v {
+						facts = nil
+						break
+					}
+					facts[k] = v
+				}
+				if facts == nil {
+					continue
+				}
+			}
+			if s.Dominates(st.b) { // loop back edge: SSA values are redefined
+				facts = map[string]bool{}
+			}
+			e := enc(s.Index, facts)
+			if seen[e] {
+				continue
+			}
+			seen[e] = true
+			np := append(append([]int{}, st.path...), s.Index)
+			stack = append(stack, state{s, 0, facts, np})
+		}
+	}
+	if budget == 0 {
+		// fall back to the path-insensitive answer (may report, never misses)
+		return reach(f, from, to, cut)
+	}
+	return nil, nil
+}
+
+// resultImplications: for a call returning (T, error): err == nil ⇒ T != nil (the repository's constructor convention).
+func resultImplications(call ssa.CallInstruction) map[string]map[string]bool {
+	out := map[string]map[string]bool{}
+	errs := errResults(call)
+	v := resultN(call, 0)
+	if len(errs) == 0 || v == nil {
+		return out
+	}
+	switch v.Type().Underlying().(type) {
+	case *types.Pointer, *types.Interface:
+	default:
+		return out
+	}
+	for _, e := range errs {
+		out[nilKey(e)+"=T"] = map[string]bool{nilKey(v): false}
+	}
+	return out
+}
